@@ -811,6 +811,31 @@ func (bf *boundsFn) buildBase() {
 			bf.addEq(la, lo, a, o, "len(make(T, n)) = n", x)
 		case *ssa.Call:
 			cc := x.Common()
+			// the result of a search helper "index of …, or -1": result < len(list)
+			// for the list it searched, as long as nothing wrote it since
+			if g := cc.StaticCallee(); g != nil && bf.p.inTarget(g) && g != bf.fn {
+				if k, fld, ok := bf.indexSummary(g); ok && k < len(cc.Args) {
+					ra, ro := bf.atom(x)
+					eachInstr(bf.fn, func(i2 ssa.Instruction) {
+						ld, ok := i2.(*ssa.UnOp)
+						if !ok || ld.Op != token.MUL || !isSliceOrString(ld.Type()) {
+							return
+						}
+						fa, ok := ld.X.(*ssa.FieldAddr)
+						if !ok || fa.X != cc.Args[k] {
+							return
+						}
+						if _, f2 := fieldRef(fa.X, fa.Field); f2 != fld {
+							return
+						}
+						if !before(x, ld) || bf.writeBetween(x, ld, ld.X) {
+							return
+						}
+						la, lo := bf.lenAtom(ld)
+						bf.addBase(ra, ro+1, la, lo, 0, "index returned by "+funcName(g)+" (or -1) is below len of the list it searched", x, ld)
+					})
+				}
+			}
 			if b, ok := cc.Value.(*ssa.Builtin); ok && b.Name() == "append" && isSliceOrString(x.Type()) {
 				la, lo := bf.lenAtom(x)
 				xa, xo := bf.lenAtom(cc.Args[0])
@@ -1316,4 +1341,106 @@ func chainAddrs(addr ssa.Value) []ssa.Value {
 		}
 	}
 	return out
+}
+
+// indexSummary: g returns an int that is either a negative constant or an
+// index proved (by g's own facts) to be below the length of the list held in
+// field fld of g's parameter k, which g does not write. Cached per function.
+var indexSummaries = map[*ssa.Function][3]interface{}{}
+
+func (bf *boundsFn) indexSummary(g *ssa.Function) (int, string, bool) {
+	if v, ok := indexSummaries[g]; ok {
+		return v[0].(int), v[1].(string), v[2].(bool)
+	}
+	indexSummaries[g] = [3]interface{}{0, "", false} // recursion guard
+	res := func(k int, f string, ok bool) (int, string, bool) {
+		indexSummaries[g] = [3]interface{}{k, f, ok}
+		return k, f, ok
+	}
+	if g.Blocks == nil || g.Signature.Results().Len() != 1 || len(g.Blocks) > 20 {
+		return res(0, "", false)
+	}
+	if bt, ok := g.Signature.Results().At(0).Type().Underlying().(*types.Basic); !ok || bt.Kind() != types.Int {
+		return res(0, "", false)
+	}
+	// candidate lists: loads of a slice field of a parameter
+	type cand struct {
+		k   int
+		fld string
+		ld  *ssa.UnOp
+	}
+	var cands []cand
+	wrote := map[string]bool{}
+	eachInstr(g, func(ins ssa.Instruction) {
+		switch x := ins.(type) {
+		case *ssa.UnOp:
+			if x.Op != token.MUL || !isSliceOrString(x.Type()) {
+				return
+			}
+			if fa, ok := x.X.(*ssa.FieldAddr); ok {
+				for k, prm := range g.Params {
+					if fa.X == ssa.Value(prm) {
+						_, f := fieldRef(fa.X, fa.Field)
+						cands = append(cands, cand{k, f, x})
+					}
+				}
+			}
+		case *ssa.Store:
+			if fa, ok := x.Addr.(*ssa.FieldAddr); ok {
+				_, f := fieldRef(fa.X, fa.Field)
+				wrote[f] = true
+			}
+		case *ssa.Call:
+			if x.Common().StaticCallee() == nil || bf.p.inTarget(x.Common().StaticCallee()) || x.Common().IsInvoke() {
+				// calls into the package or through interfaces could write the list
+				if b := builtinName(x.Common()); b == "" {
+					if sc := x.Common().StaticCallee(); sc == nil || bf.p.inTarget(sc) {
+						wrote["*"] = true
+					}
+				}
+			}
+		}
+	})
+	if len(cands) == 0 {
+		return res(0, "", false)
+	}
+	gbf := newBoundsFn(bf.p, bf.fw, g)
+	for _, c := range cands {
+		if wrote[c.fld] {
+			continue
+		}
+		okAll, n, nIdx := true, 0, 0
+		for _, b := range g.Blocks {
+			ret, ok := b.Instrs[len(b.Instrs)-1].(*ssa.Return)
+			if !ok {
+				continue
+			}
+			n++
+			if cv, ok := constInt(ret.Results[0]); ok {
+				if cv >= 0 {
+					okAll = false
+				}
+				continue
+			}
+			nIdx++
+			ia, io := gbf.atom(ret.Results[0])
+			// every load of that field in g that is current at the return
+			proved := false
+			for _, c2 := range cands {
+				if c2.k == c.k && c2.fld == c.fld {
+					la, lo := gbf.lenAtom(c2.ld)
+					if gbf.prove(ia, io+1, la, lo, ret, nil) {
+						proved = true
+					}
+				}
+			}
+			if !proved {
+				okAll = false
+			}
+		}
+		if okAll && n > 0 && nIdx > 0 {
+			return res(c.k, c.fld, true)
+		}
+	}
+	return res(0, "", false)
 }
